@@ -4,6 +4,11 @@
 
    request:  run <mode> <refmap 0|1> <dumps 0|1> <obj> <obj> ...
      mode: clone | pick:<mask> | fclone:<mask> | vec:<mask>     (mask: decimal bit set over the Node fields, see FIELDS)
+           swap:<mask>:<split>  pick the fields below bit <split>, then the idiom flatcc_builder.h documents for nested
+                                buffers: saved = set_refmap(B, &nested_map); build the `nested` field as a nested buffer
+                                (clone of the source's leaf); set_refmap(B, saved); then pick the remaining fields.
+                                api=<bits> reports set_refmap returning the wrong map / changing a map's content
+   request:  api          direct test of flatcc_builder_set_refmap / get_refmap / refmap_find / refmap_insert -> API ok | API <failures>
      objects are numbered 0.. in order of appearance, later objects refer to earlier ones by number (sharing = DAG):
        S:<hex>  string        B:<hex> [ubyte]     L:<a.b.c> [long]   C:<a.b> [Color]   V:<a.b> [Vec3]   P:<a.b> [Pair]
        SV:<i.j> [string]      LV:<i.j> [Leaf]     NV:<i.j> [Node]    VS:<a> Vec3 (union member)   PS:<a> Pair (union member)
@@ -364,6 +369,56 @@ static int op_vec(flatcc_builder_t *B, ns(Node_table_t) t, unsigned mask)
     return 0;
 }
 
+static unsigned g_api;   /* bit 0: set_refmap did not return the previous map, bit 1: a map changed under set_refmap, bit 2: get_refmap wrong */
+static int op_swap(flatcc_builder_t *B, ns(Node_table_t) src, unsigned mask, unsigned split, flatcc_refmap_t *outer)
+{
+    flatcc_refmap_t nested_map, *saved; size_t c0, b0; int r;
+    ns(Leaf_table_t) leaf = ns(Node_leaf(src));
+    mask &= ~(1u << 22);
+#define X(i, name) if (i < split && M(i) && ns(Node_##name##_pick(B, src))) return -(100 + i);
+    FIELDS(X)
+#undef X
+    flatcc_refmap_init(&nested_map);
+    c0 = outer ? outer->count : 0; b0 = outer ? outer->buckets : 0;
+    saved = flatcc_builder_set_refmap(B, &nested_map);
+    if (saved != outer) g_api |= 1;
+    if (flatcc_builder_get_refmap(B) != &nested_map) g_api |= 4;
+    if (outer && (outer->count != c0 || outer->buckets != b0)) g_api |= 2;
+    if (leaf) r = ns(Node_nested_clone_as_root(B, leaf));
+    else { r = ns(Node_nested_start_as_root(B)); if (!r) r = ns(Leaf_val_add(B, 99)); if (!r) r = ns(Node_nested_end_as_root(B)); }
+    { size_t nc = nested_map.count;
+      if (flatcc_builder_set_refmap(B, saved) != &nested_map) g_api |= 1;
+      if (nested_map.count != nc) g_api |= 2; }
+    if (flatcc_builder_get_refmap(B) != outer) g_api |= 4;
+    if (outer && (outer->count != c0 || outer->buckets != b0)) g_api |= 2;
+    flatcc_refmap_clear(&nested_map);
+    if (r) return -90;
+#define X(i, name) if (i >= split && M(i) && ns(Node_##name##_pick(B, src))) return -(100 + i);
+    FIELDS(X)
+#undef X
+    return 0;
+}
+static void run_api(void)
+{
+    flatcc_builder_t B; flatcc_refmap_t m1, m2; int a = 1, b = 2; unsigned bad = 0;
+    flatcc_builder_init(&B); flatcc_refmap_init(&m1); flatcc_refmap_init(&m2);
+    if (flatcc_builder_refmap_find(&B, &a) != 0) bad |= 1;                       /* no map: finds nothing */
+    if (flatcc_builder_refmap_insert(&B, &a, 17) != 17) bad |= 2;                /* no map: hands the reference back */
+    flatcc_refmap_insert(&m1, &a, 11); flatcc_refmap_insert(&m2, &b, 22);
+    if (flatcc_builder_set_refmap(&B, &m1) != 0) bad |= 4;
+    if (m1.count != 1 || flatcc_refmap_find(&m1, &a) != 11) bad |= 8;           /* installing a map keeps its entries */
+    if (flatcc_builder_refmap_find(&B, &a) != 11 || flatcc_builder_refmap_find(&B, &b) != 0) bad |= 16;
+    if (flatcc_builder_set_refmap(&B, &m2) != &m1) bad |= 32;
+    if (m1.count != 1 || m2.count != 1 || flatcc_refmap_find(&m2, &b) != 22 || flatcc_refmap_find(&m1, &a) != 11) bad |= 64;
+    if (flatcc_builder_refmap_insert(&B, &a, 33) != 33 || flatcc_refmap_find(&m2, &a) != 33 || flatcc_refmap_find(&m1, &a) != 11) bad |= 128;
+    if (flatcc_builder_set_refmap(&B, &m1) != &m2) bad |= 256;
+    if (m1.count != 1 || flatcc_builder_refmap_find(&B, &a) != 11 || m2.count != 2) bad |= 512;   /* restoring the parent map keeps it */
+    if (flatcc_builder_get_refmap(&B) != &m1) bad |= 1024;
+    if (flatcc_builder_set_refmap(&B, 0) != &m1 || flatcc_builder_get_refmap(&B) != 0 || m1.count != 1) bad |= 2048;
+    flatcc_refmap_clear(&m1); flatcc_refmap_clear(&m2); flatcc_builder_clear(&B);
+    if (bad) printf("API failed=%u\n", bad); else printf("API ok\n");
+}
+
 static void run(char **tok, int ntok)
 {
     flatcc_builder_t B1, B2; flatcc_refmap_t refmap; void *src = 0, *dst = 0; size_t ssz = 0, dsz = 0;
@@ -371,8 +426,10 @@ static void run(char **tok, int ntok)
     flatcc_builder_ref_t root = 0; const char *colon = strchr(mode, ':');
     struct obuf vs = {0, 0, 0}, vd = {0, 0, 0}, hs = {0, 0, 0}, hd = {0, 0, 0}; struct ids is = {0, 0, 0, 0, 0}, id = {0, 0, 0, 0, 0};
     ns(Node_table_t) sroot;
-    size_t mapcount = 0, nalias = 0; unsigned extra = 0;
-    if (colon) mask = (unsigned)strtoul(colon + 1, 0, 10);
+    size_t mapcount = 0, nalias = 0; unsigned extra = 0, split = 0; int swap = !strncmp(mode, "swap", 4), nest_eq = 1;
+    if (colon) { char *e; mask = (unsigned)strtoul(colon + 1, &e, 10); if (*e == ':') split = (unsigned)strtoul(e + 1, 0, 10); }
+    if (swap) mask &= ~(1u << 22);
+    g_api = 0;
     nobjs = 0; g_err = 0;
     flatcc_builder_init(&B1);
     if (flatcc_builder_start_buffer(&B1, 0, 0, 0)) { printf("ERR start_buffer\n"); goto done1; }
@@ -395,7 +452,7 @@ static void run(char **tok, int ntok)
         if (!ns(Node_clone_as_root(&B2, sroot))) rc = -1;
     } else {
         if (flatbuffers_buffer_start(&B2, 0) || ns(Node_start(&B2))) rc = -2;
-        if (!rc) rc = !strncmp(mode, "pick", 4) ? op_pick(&B2, sroot, mask) : !strncmp(mode, "fclone", 6) ? op_fclone(&B2, sroot, mask) : op_vec(&B2, sroot, mask);
+        if (!rc) rc = swap ? op_swap(&B2, sroot, mask, split, use_map ? &refmap : 0) : !strncmp(mode, "pick", 4) ? op_pick(&B2, sroot, mask) : !strncmp(mode, "fclone", 6) ? op_fclone(&B2, sroot, mask) : op_vec(&B2, sroot, mask);
         if (!rc && !flatbuffers_buffer_end(&B2, ns(Node_end(&B2)))) rc = -3;
     }
     mapcount = refmap.count;
@@ -412,11 +469,18 @@ static void run(char **tok, int ntok)
 #define X(i, name) if (!M(i) && ns(Node_##name##_is_present(droot))) extra |= 1u << i;
         FIELDS(X)
 #undef X
+        if (swap) {   /* the nested buffer built between the two halves: the source's leaf (or val=99) */
+            struct obuf a = {0, 0, 0}, b = {0, 0, 0}; ns(Leaf_table_t) nl = ns(Node_nested_is_present(droot)) ? ns(Node_nested_as_root(droot)) : 0;
+            extra &= ~(1u << 22);
+            if (!nl) nest_eq = 0; else if (ns(Node_leaf(sroot))) { d_leaf(&a, 0, ns(Node_leaf(sroot))); d_leaf(&b, 0, nl); ob_put(&a, ""); ob_put(&b, ""); nest_eq = a.n == b.n && !memcmp(a.p, b.p, a.n); }
+            else nest_eq = ns(Leaf_val(nl)) == 99;
+            free(a.p); free(b.p);
+        }
     }
     ob_put(&vs, ""); ob_put(&vd, ""); ob_put(&hs, ""); ob_put(&hd, "");
     {
         int veq = vs.n == vd.n && !memcmp(vs.p, vd.p, vs.n), heq = hs.n == hd.n && !memcmp(hs.p, hd.p, hs.n);
-        printf("OK srcv=0 dstv=0 val=%d share=%d extra=%u back_src=%lu back_dst=%lu map=%lu alias=%lu ids=%lu/%lu size=%lu/%lu", veq, heq, extra, (unsigned long)is.back, (unsigned long)id.back,
+        printf("OK srcv=0 dstv=0 api=%u nest=%d val=%d share=%d extra=%u back_src=%lu back_dst=%lu map=%lu alias=%lu ids=%lu/%lu size=%lu/%lu", g_api, nest_eq, veq, heq, extra, (unsigned long)is.back, (unsigned long)id.back,
                (unsigned long)mapcount, (unsigned long)nalias, (unsigned long)is.n, (unsigned long)id.n, (unsigned long)ssz, (unsigned long)dsz);
         if (dumps || !veq) { vs.p[vs.n] = 0; vd.p[vd.n] = 0; printf(" | %s | %s", vs.p, vd.p); }
         if (dumps || (!heq && use_map)) { hs.p[hs.n] = 0; hd.p[hd.n] = 0; printf(" | %s | %s", hs.p, hd.p); }
@@ -445,7 +509,7 @@ int main(void)
             if (*p) *p++ = 0;
         }
         alarm(10);   /* a reference map whose probe loop does not end must not hang the check */
-        if (n >= 5 && !strcmp(tok[0], "run")) run(tok, (int)n); else printf("BAD\n");
+        if (n >= 5 && !strcmp(tok[0], "run")) run(tok, (int)n); else if (n == 1 && !strcmp(tok[0], "api")) run_api(); else printf("BAD\n");
         alarm(0);
         fflush(stdout);
     }
